@@ -171,6 +171,20 @@ def h_numbered(E, case):
     return 'ok'
 
 
+def h_numbered_base_also_variable(E):
+    """a numbered-variable base name may also be an ordinary variable (or share its name with nothing else): both get values, each from its own sampling set"""
+    from mitxgraders import FormulaGrader
+    SA = make_sym_sampler(E, 'a', 1, 2)
+    g = FormulaGrader(answers='a + a_{1} + x', variables=['a', 'x'], numbered_vars=['a'], sample_from={'a': SA(), 'x': [3, 4]}, samples=2)
+    var_samples, _ = g.gen_var_and_func_samples('a + a_{1} + x + 0*a_{2}', {}, ['a + a_{1} + x'])
+    for sample in var_samples:
+        E.check('every-instance-variable-dependent-constant-present', set(sample.keys()) == {'a', 'x', 'a_{1}', 'a_{2}', 'pi', 'e', 'i', 'j'})
+        E.check('numbered-instances-from-base-sampler', sand(*[sand(sample[k] >= 1, sample[k] <= 2) for k in ('a', 'a_{1}', 'a_{2}')]))
+    r = g(None, 'x + a_{1} + a')
+    E.check('graded-correct', r['ok'] is True)
+    return 'ok'
+
+
 BAD_NUMBERED = ['a_{03}', 'a_{-0}', 'a_{1.5}', 'A_{1}', 'a_{}', 'a_{+1}', 'ab_{1}', 'a_{1}x', 'a_{1}_{2}']
 
 
@@ -239,6 +253,7 @@ def harnesses(tier):
         add(h_numbered, 'numbered', dict(case=case), 'numbered instances with negative / multi-digit indices')
     for hk in ('one', 'two', 'prefixes', 'special'):
         add(h_numbered_language, 'numbered_language', dict(heads=hk), 'regex language over all printable-ASCII strings, no length bound', validate=False)
+    add(h_numbered_base_also_variable, 'numbered_base_also_variable', {}, 'symbolic draws')
     for i in range(len(BAD_NUMBERED)):
         add(h_numbered_bad, 'numbered_bad', dict(i=i), repr(BAD_NUMBERED[i]))
     return hs
